@@ -17,7 +17,7 @@ func fmtPackagesLock() *format {
 		pool: []rec{
 			{Name: "Newtonsoft.Json", Version: "13.0.3", Tag: "plain"},
 			{Name: "Newtonsoft.Json", Version: "12.0.3", Tag: "same-name-second-version"},
-			{Name: "Microsoft.Extensions.Logging.Abstractions", Version: "7.0.0", Tag: "long-dotted"},
+			{Name: "Newtonsoft.Json1", Version: "3.0.3", Tag: "name+version-concat-equals-plain"},
 			{Name: "A.B-C_D", Version: "2.0.0-rc.1", Tag: "corner-alphabet-prerelease"},
 			{Name: "System.Text.Json", Version: "8.0.0-preview.7.23375.6", Tag: "preview-version"},
 			{Name: "serilog", Version: "3.0.1", Tag: "lowercase"},
